@@ -1,14 +1,21 @@
 #!/usr/bin/env python3
 """Differential test of coq/model/Funcs.v against the REAL function::get_value (harness `func`).
 
-usage: funcsdiff.py [--seed N] [--n N] [--jobs N] [--keep]
+usage: funcsdiff.py [--seed N] [--n N] [--jobs N] [--keep] [--datetime N]
 
 For every generated call (function name, first argument, further arguments) the real code
 is run through /verif/.build/harness/release/fsharness and the model through
 `Eval vm_compute in run NOW name arg args` (shards of 300 cases, several coqc in parallel).
 Compared: outcome class (value / exit status 2 / panic), the variant type, and the printed
 string code point by code point; for status 2 also the diagnostic on stderr.  Cases on which the model
-answers `unmodelled` are counted and skipped."""
+answers `unmodelled` are counted and skipped.
+
+--datetime N additionally compares coq/model/Datetime.v `parse_datetime` itself with the real
+util::datetime::parse_datetime (harness `datetime`) on the DATES pool, on the formerly
+panicking inputs (short signed non-numbers, non-ASCII decimal digits) and on N random texts:
+Ok intervals and Err messages must be equal.  Where the model answers Unmodelled (the text is
+handed to the third-party chrono_english crate) the model makes no claim; real panics there are
+counted and listed separately (FINDING: chrono_english 0.1.7 panics on some texts)."""
 import argparse, base64, collections, datetime, json, os, random, re, subprocess, sys, tempfile
 from concurrent.futures import ThreadPoolExecutor
 
@@ -39,6 +46,10 @@ NUMS = ["0", "-0", "+0", "1", "-1", "+5", "007", "-007", "2", "3", "7", "8", "10
 DATES = ["2024-02-29", "2023-02-29", "2023-02-28", "2023-12-31", "2024-01-01", "1970-01-01", "1969-12-31", "0001-01-01", "9999-12-31", "0000-01-01", "0000-12-31", "2023-13-01", "2023-00-10", "2023-04-31", "2023-04-30",
          "2023-4-3", "2023-04-00", "2023-04-30 23:59:59", "2023-04-30 24:00", "2023-04-30 23:60", "2023-04-30 7", "2023-12-11 14:30", "2023:12:11", "x2023-12-11y", "12023-12-11", "2023-12-111", "2023-12-11:5",
          "today", "yesterday", "Today", "+1", "-1", "+30", "-365", "+999", "-999", "+a", "-", "+", "-x", "+1.5", "abc", "", "a", "1234", "20231211", "٢٠٢٣-١٢-١١", "2023-12-١١",
+         # formerly panicking inputs (short signed non-numbers; non-ASCII decimal digits) and their neighbours
+         "--1", "+-1", "-+1", "++", "+ 1", "-1 ", "+1a", "-a1", "+.5", "-1.", "+1e1", "-0", "+0", "+00", "-000", "+é", "-é", "+éa", "-١", "+١٢", "١٢", "١", "１２", "+１",
+         "2023-12-11 ١", "2023-12-11 ١٢:٣٠", "2023-12-11 10:١", "2023-12-11 10:30:١", "2023-12-1١", "2023-1١-11", "202٣-12-11", "٢٠٢٣-12-11", "2023-١٢-11", "２０２３-１２-１１", "2023-12-11１",
+         "x٢٠٢٣-١٢-١١ 2023-12-11", "߂߀߂߃-߁߂-߁߁", "२०२३-१२-११",
          "2100-02-29", "2000-02-29", "1900-02-29", "1900-03-01", "2400-02-29", "2023-01-01 00:00:00", "2023-06-15 12:00:00", "2023-12-31 23:59:59", "1999-12-31", "2038-01-19", "1600-01-01", "5000-07-04"]
 
 FUNCS = ["lower", "upper", "initcap", "length", "to_base64", "from_base64", "concat", "concat_ws", "substr", "replace", "trim", "ltrim", "rtrim", "bin", "hex", "oct",
@@ -92,6 +103,122 @@ def rdate(rng):
     if k < 0.9:
         return t + " %02d:%02d:%02d" % (rng.randrange(0, 26), rng.randrange(0, 62), rng.randrange(0, 62))
     return rng.choice(["", "x", " "]) + t + rng.choice(["", "x", " 5", ":7", "T10:00"])
+
+
+NONASCII_DIGITS = ["٠١٢٣٤٥٦٧٨٩", "۰۱۲۳۴۵۶۷۸۹", "０１２３４５６７８９", "०१२३४५६७८९", "߀߁߂߃߄߅߆߇߈߉"]
+
+
+def rdt(rng):
+    """texts for the parse_datetime differential: dates, short signed texts, non-ASCII digits"""
+    k = rng.random()
+    if k < 0.25:
+        return rdate(rng)
+    if k < 0.55:      # at most 4 bytes after a sign (or not)
+        alpha = "0123456789" * 3 + "+-. :aex" + "é١１"
+        t = rng.choice(["+", "-", "+", "-", ""]) + "".join(rng.choice(alpha) for _ in range(rng.randrange(0, 5)))
+        return t
+    # a date-shaped text in which some digits are replaced by non-ASCII decimal digits
+    t = "%04d%s%02d%s%02d" % (rng.randrange(0, 10000), rng.choice("-:"), rng.randrange(0, 14), rng.choice("-:"), rng.randrange(0, 33))
+    if rng.random() < 0.6:
+        t += rng.choice([" ", "", ":"]) + "%02d" % rng.randrange(0, 26)
+        if rng.random() < 0.6:
+            t += rng.choice([":", ""]) + "%02d" % rng.randrange(0, 62)
+            if rng.random() < 0.6:
+                t += rng.choice([":", ""]) + "%02d" % rng.randrange(0, 62)
+    tab = rng.choice(NONASCII_DIGITS)
+    mode = rng.random()
+    out = []
+    for i, c in enumerate(t):
+        if c.isdigit() and c.isascii() and ((mode < 0.3) or (mode < 0.7 and rng.random() < 0.2) or (mode >= 0.7 and i >= 10 and rng.random() < 0.5)):
+            out.append(tab[int(c)])
+        else:
+            out.append(c)
+    return rng.choice(["", "", "x", "1"]) + "".join(out) + rng.choice(["", "", "z", " 2024-02-29"])
+
+
+def write_dt_shard(path, now, texts):
+    with open(path, "w") as f:
+        f.write("From Coq Require Import NArith ZArith List.\nFrom FS Require Import lib.Str lib.Res model.Datetime.\nImport ListNotations.\nOpen Scope Z_scope.\n"
+                "Set Printing Width 2000000.\nSet Printing Depth 2000000.\n"
+                "Definition zs (m : str) : list Z := map Z.of_N m.\n"
+                "Definition obs (r : dtres) : Z * Z * Z * list Z := match r with Unmodelled => (9, 0, 0, []) | Det (Ok (a, b)) => (0, a, b, []) "
+                "| Det (Exit2 m) => (2, 0, 0, zs m) | Det (Panic st) => (3, 0, 0, zs st) | Det _ => (7, 0, 0, []) end.\n")
+        for x in texts:
+            f.write("Eval vm_compute in obs (parse_datetime %d (%s)%%N).\n" % (now, coq_str(x)))
+
+
+DTRES = re.compile(r"=\s*\((\d+),\s*(-?\d+),\s*(-?\d+),\s*\[([0-9;\s]*)\]\)")
+
+
+def run_dt_shard(path):
+    p = subprocess.run(["coqc", "-R", COQ, "FS", path], stdout=subprocess.PIPE, stderr=subprocess.PIPE, timeout=3000)
+    if p.returncode != 0:
+        raise RuntimeError("coqc failed on %s: %s" % (path, p.stderr.decode()[-2000:]))
+    out = []
+    for m in DTRES.finditer(p.stdout.decode()):
+        body = m.group(4).strip()
+        cps = [int(t) for t in body.split(";")] if body else []
+        out.append((int(m.group(1)), int(m.group(2)), int(m.group(3)), "".join(chr(c) for c in cps)))
+    return out
+
+
+def datetime_diff(a, now):
+    rng = random.Random(a.seed * 7919 + 13)
+    texts = list(DATES)
+    while len(texts) < len(DATES) + a.datetime:
+        texts.append(rdt(rng))
+    real = Harness().batch([{"cmd": "datetime", "s": x} for x in texts])
+    tmp = tempfile.mkdtemp(prefix="dtdiff_")
+    paths = []
+    for i in range(0, len(texts), SHARD):
+        p = os.path.join(tmp, "DtShard%03d.v" % (i // SHARD))
+        write_dt_shard(p, now, texts[i:i + SHARD])
+        paths.append(p)
+    with ThreadPoolExecutor(max_workers=a.jobs) as ex:
+        model = [r for part in ex.map(run_dt_shard, paths) for r in part]
+    if len(model) != len(texts) or len(real) != len(texts):
+        print("datetime: count mismatch: texts %d model %d real %d" % (len(texts), len(model), len(real)))
+        return 2
+    st = collections.Counter()
+    bad, ce_panics = [], []
+    for x, (mc, ma, mb, ms), r in zip(texts, model, real):
+        rr = r.get("r") if isinstance(r.get("r"), dict) else None
+        if rr is not None and "ok" in rr:
+            rc, rv = 0, (rr["ok"][0], rr["ok"][1], "")
+        elif rr is not None and "err" in rr:
+            rc, rv = 2, (0, 0, rr["err"])
+        elif "panic" in r:
+            rc, rv = 3, (0, 0, r["panic"])
+        else:
+            rc, rv = 99, (0, 0, json.dumps(r))
+        st["real_%d" % rc] += 1
+        if not x.isascii():
+            st["nonascii"] += 1
+        if mc == 9:
+            st["unmodelled"] += 1
+            if rc == 3:
+                ce_panics.append((x, rv[2]))
+            elif rc not in (0, 2):
+                bad.append((x, (mc, ma, mb, ms), (rc,) + rv))
+            continue
+        if mc == rc and (ma, mb, ms) == rv:
+            st["agree"] += 1
+        else:
+            bad.append((x, (mc, ma, mb, ms), (rc,) + rv))
+    print("datetime seed %d: %d texts (%d with non-ASCII characters), %d compared and equal, %d unmodelled (chrono_english, not compared), %d MISMATCHES"
+          % (a.seed, len(texts), st["nonascii"], st["agree"], st["unmodelled"], len(bad)))
+    print("datetime real outcomes: Ok %d, Err %d, panics %d (all %d inside the unmodelled chrono_english branch: %s), other %d"
+          % (st["real_0"], st["real_2"], st["real_3"], len(ce_panics), "yes" if len(ce_panics) == st["real_3"] else "NO", st["real_99"]))
+    kinds = collections.defaultdict(list)
+    for x, msg in ce_panics:
+        kinds[re.sub(r"\d+|'.'|`[^`]*`", "_", msg)[:60]].append(x)
+    for k, xs in kinds.items():
+        print("REAL PANIC inside chrono_english (model: Unmodelled), %d texts, e.g. %r: %s" % (len(xs), xs[:4], k))
+    for b in bad[:40]:
+        print("DATETIME MISMATCH text=%r model=%r real=%r" % b)
+    if not a.keep:
+        subprocess.run(["rm", "-rf", tmp])
+    return 1 if bad else 0
 
 
 def rb64(rng):
@@ -275,6 +402,8 @@ def main():
     ap.add_argument("--n", type=int, default=6000)
     ap.add_argument("--jobs", type=int, default=12)
     ap.add_argument("--keep", action="store_true")
+    ap.add_argument("--json", default=None, help="write the result summary to this file")
+    ap.add_argument("--datetime", type=int, default=0, help="also compare parse_datetime itself on the DATES pool + N random texts")
     a = ap.parse_args()
     rng = random.Random(a.seed)
     cases = systematic()
@@ -282,6 +411,7 @@ def main():
         cases.append(gen_call(rng, rng.choice(FUNCS)))
     now = (datetime.datetime.now(datetime.timezone.utc).date() - datetime.date(1970, 1, 1)).days
     cases.append(("current_date", "", []))
+    dt_status = datetime_diff(a, now) if a.datetime > 0 else 0
 
     h = Harness()
     real = h.batch([{"cmd": "func", "f": n, "arg": x, "args": xs} for (n, x, xs) in cases])
@@ -344,11 +474,17 @@ def main():
         print("REAL PANIC: %s(%r, %r): %s" % (name, arg, args, msg[:120]))
     for m in mismatches[:40]:
         print("MISMATCH call=%r model=%r real=%r" % m)
+    if a.json:
+        json.dump({"cases": len(cases), "agree": stats["agree"], "unmodelled": stats["unmodelled"], "datetime_status": dt_status,
+                   "mismatches": [{"call": list(m[0]), "model": list(m[1]), "real": list(m[2])} for m in mismatches[:50]],
+                   "panics": [{"call": [p_[0], p_[1], p_[2]], "message": p_[3][:200]} for p_ in panics[:50]],
+                   "per_function": {f: dict(c) for f, c in per_fn.items()},
+                   "unmodelled_by": {"%s: %s" % k: v for k, v in unmodelled.items()}}, open(a.json, "w"))
     if not a.keep:
         subprocess.run(["rm", "-rf", tmp])
     else:
         print("shards kept in", tmp)
-    return 1 if mismatches else 0
+    return 1 if (mismatches or dt_status) else 0
 
 
 if __name__ == "__main__":
